@@ -33,6 +33,7 @@ def run(tier, seed, res, lean):
     for i in range(12 if tier == 'quick' else 100):
         problems += suite_neutral.run_ids_order(seed * 29 + i)
         problems += suite_neutral.run_dynamic_bracketings(seed * 37 + i)
+        problems += suite_neutral.run_checkids_neutral(seed * 41 + i)
     # External layers: the digests of their fields do not depend on the string-hash seed of the interpreter
     from .. import suite_external
     _, hs = suite_external.run_hash_seeds(seed, 3 if tier == 'quick' else 12)
